@@ -266,7 +266,7 @@ def python_side(case):
 
 
 def shard(shard, nshards, tier, seed, scratch):
-    total = 8000 if tier == 'quick' else 120000
+    total = 20000 if tier == 'quick' else 160000
     stats = Stats()
     drv = jsdriver.Driver()
     try:
